@@ -581,6 +581,16 @@ def h_symbols(eng, target, case, fmt="elf"):
             eng.fail("C13 a name defined only in an earlier, finalized round was accepted as known")
         except UndefSymbolError:
             eng.ok()
+    elif case == "chunked_set":
+        # an assigned temporary symbol defined in one chunk and used as an operand in a later one
+        use = {"x64-intel": "mov eax, .L_k", "x64-att": "movl $.L_k, %eax", "ia32": "movl $.L_k, %eax", "arm64": "mov x0, #.L_k"}[target]
+        prog = [tok("o"), tok("raw", ".set .L_k, 8"), tok("o2"), tok("raw", use), tok("o")]
+        whole = run_prog(prog)
+        cut = eng.choose("cut", list(range(1, len(prog))))
+        parts = run_prog(prog, chunks=[prog[:cut], prog[cut:]])
+        eng.check(_summary(eng, whole) == _summary(eng, parts) if not eng.sym else _summary_equal(eng, whole, parts),
+                  "C13 assembling in two chunks (cut at %d) differs from assembling the concatenation when a chunk uses a symbol "
+                  "assigned (.set) in an earlier chunk" % cut, finding="C13-assigned-symbol-across-chunks" if 2 <= cut <= 3 else None)
     elif case == "chunked":
         prog = [tok("label", "a"), tok("o"), tok("jcc", "a"), tok("o2"), tok("label", ".Lb"), tok("call", "func"), tok("jmp", ".Lb"), tok("byte")]
         whole = run_prog(prog)
@@ -728,6 +738,7 @@ def make_check_C13(tier):
         for case in ("undef_refused", "undef_allowed", "undef_allowed_temp", "module_binds", "redefine_global", "redefine_temp", "redefine_own", "redefine_set",
                      "temp_suffix", "chunked"):
             chk.add("symbols/%s/%s" % (target, case), h_symbols, params=dict(target=target, case=case), timeout=900)
+        chk.add("symbols/%s/chunked_set" % target, h_symbols, params=dict(target=target, case="chunked_set"), timeout=900)
         chk.add("symbols/%s/reuse_after_finalize" % target, h_symbols, params=dict(target=target, case="reuse_after_finalize"), timeout=900)
         for pname in ("jcc-back", "temp", "data-after-ret", "calls", "ascii-nul"):
             prog = PROGRAMS[pname]
